@@ -19,23 +19,23 @@ type LoopSpec struct {
 }
 
 type Contract struct {
-	Key       string // pkg.Recv.Func
-	Pkg       *types.Package
-	Header    string
-	Requires  []*Expr
-	Ensures   []*Expr
-	Modifies  []string // nil: derived; []{"nothing"}; key globs
-	Loops     map[int]*LoopSpec
-	PanicsIff *Expr
-	Inline    bool
-	Trusted   bool // contract is assumed: body is not verified (listed)
-	Uses      []*Expr
-	Props     []string
-	File      string
-	Line      int
-	modset    *ModSet
-	ParamNames []string // extern contracts: parameter names from the header
-	Devirt    map[string]string // parameter name -> concrete type name (interface parameter known to hold *T)
+	Key        string // pkg.Recv.Func
+	Pkg        *types.Package
+	Header     string
+	Requires   []*Expr
+	Ensures    []*Expr
+	Modifies   []string // nil: derived; []{"nothing"}; key globs
+	Loops      map[int]*LoopSpec
+	PanicsIff  *Expr
+	Inline     bool
+	Trusted    bool // contract is assumed: body is not verified (listed)
+	Uses       []*Expr
+	Props      []string
+	File       string
+	Line       int
+	modset     *ModSet
+	ParamNames []string          // extern contracts: parameter names from the header
+	Devirt     map[string]string // parameter name -> concrete type name (interface parameter known to hold *T)
 }
 
 type SpecParam struct {
